@@ -256,6 +256,65 @@ def disturb_with_sibling(rng, c):
     return calls
 
 
+def other_model_first(rng, c, counters):
+    """A session holds more than one model: the same definition with states and parameters DECLARED in another order is built in the same
+    process, given a loss object with free initial values, and evaluated, BEFORE the loss object under judgement is used (each object
+    must keep its own positions of states and parameters).  Nothing of the twin is judged here."""
+    import pygom
+    tw = G.permuted_twin_spec(c.spec, rng)
+    if tw is None or not len(c.times):
+        return 0
+    calls = 0
+    try:
+        with contextlib.redirect_stdout(io.StringIO()), np.errstate(all="ignore"):
+            twm = G.build(tw, backend="lambda")
+            th = [float(c.theta[c.params.index(p_)]) for p_ in tw["params"]]
+            x0 = [float(c.x0[c.states.index(s_)]) for s_ in tw["states"]]
+            twm.parameters = list(th)
+            twm.initial_values = (list(x0), c.t0)
+            obs = rng.choice(tw["states"])
+            ts = rng.sample(tw["states"], rng.randint(1, len(tw["states"])))
+            tp = rng.sample(tw["params"], rng.randint(1, len(tw["params"]))) if tw["params"] else None
+            kw = {"target_state": ts}
+            if tp:
+                kw["target_param"] = tp
+            y = np.array([1.0 + 0.1 * k for k in range(len(c.times))])
+            obj = pygom.SquareLoss(np.array([th[tw["params"].index(p_)] for p_ in tp], dtype=float) if tp else np.array(th), twm, list(x0), c.t0, c.times, y, [obs], **kw)
+            arg = np.array(([th[tw["params"].index(p_)] for p_ in tp] if tp else th) + [x0[tw["states"].index(s_)] * 1.1 + 0.05 for s_ in ts], dtype=float)
+            for name in ("costIV", "sensitivityIV"):
+                try:
+                    getattr(obj, name)(arg.copy())
+                    calls += 1
+                except Exception:
+                    pass
+    except Exception:
+        counters["other_model_first_raised"] = counters.get("other_model_first_raised", 0) + 1
+    counters["other_model_first_calls"] = counters.get("other_model_first_calls", 0) + calls
+    return calls
+
+
+def refused_parameter_assignment(rng, c, counters):
+    """An assignment to the parameters of the model the loss object works on that is (rightly) refused: a dict naming a valid parameter
+    (one that is NOT among the free ones, where there is such) with another value first and an unknown name second, or a list of the
+    wrong length.  The refused assignment leaves every value as it was."""
+    if not c.params:
+        return None
+    nontarget = [p_ for p_ in c.params if c.target_param is None or p_ not in c.target_param]
+    k = rng.choice(nontarget or list(c.params))
+    v = float(c.theta[c.params.index(k)]) * rng.choice([0.4, 1.7, 2.5]) + 0.01
+    form = rng.choice(["dict-known-then-unknown", "dict-known-then-unknown", "pairs-known-then-unknown", "list-too-long"])
+    bad = {"dict-known-then-unknown": {k: v, "no_such_parameter": 0.2}, "pairs-known-then-unknown": [(k, v), ("no_such_parameter", 0.2)],
+           "list-too-long": [v] * (c.nP + 2)}[form]
+    try:
+        c.m.parameters = bad
+        # pygom took it: not a refused assignment after all - put the values of the case back and count it
+        c.m.parameters = list(c.theta)
+        counters["refused_assignments_accepted"] = counters.get("refused_assignments_accepted", 0) + 1
+    except Exception:
+        counters["refused_assignments"] = counters.get("refused_assignments", 0) + 1
+    return form
+
+
 PRIOR_CALLS = ["cost", "residual", "sensitivity", "gradient", "jac", "jtj", "fisher_information", "hessian", "diff_loss"]
 
 
@@ -290,6 +349,8 @@ def prior_calls(rng, c, obj, counters, k=(0, 3)):
         except Exception:
             counters["refused_calls"] = counters.get("refused_calls", 0) + 1
         done.append("<refused call %s(%s)>" % (entry, "str" if isinstance(bad_arg, str) else "len %d" % len(bad_arg)))
+    if rng.random() < 0.3:
+        done.append("<refused parameter assignment: %s>" % refused_parameter_assignment(rng, c, counters))
     counters["prior_calls"] = counters.get("prior_calls", 0) + len(done)
     return done
 
